@@ -12,7 +12,13 @@ RULE = ("generated functions: nested try/except(typed, bare, as-name)/else/final
         "under all plans 'the clauses in set P (|P| <= 2, all singles, all/sampled pairs) raise classes c(p) in "
         "{E3,E4,E5}' so that every position raises classes its own / the outer handlers match and do not match, "
         "incl. bodies that cannot raise; the same shapes as the body of a 2-iteration loop where a point can "
-        "also break / continue / return (loop-label and return-label interceptors); (b) a raise (new / from None / from new / from name / of a name / bare) "
+        "also break / continue / return (loop-label and return-label interceptors); every raise point can also do a "
+        "BARE raise (plan value R): all singles, pairs, and the chain plans 'one point does a bare raise, up to two "
+        "other points raise E3/E5 (thorough: E4 too, and a second bare raise)' in which every planned point fires "
+        "(decided by the CPython run) -- every <= 3-step path ending in or passing through a bare raise at every "
+        "clause position (which handler's / which finally's exception is current there); the nested templates of the "
+        "quick tier cover (outer clause kind: body, handler, else, finally) x (inner family: try/except, "
+        "finally-bearing, with); (b) a raise (new / from None / from new / from name / of a name / bare) "
         "or return/break injected at every position of every shape pair, else clauses reached; (c) random trees "
         "of depth <= 3; (d) hand-written regressions. Every block logs itself and probes sys.exc_info(); each "
         "function is run in three calling contexts (nothing handled, inside a handler, from a generator frame "
@@ -38,11 +44,27 @@ EXPLANATION = ("theorems: for ALL programs of the statement language (raise / ra
                "bypass the statement's own handlers; refuted for the variant that switches the error label after the else "
                "clause. The running compiler is tied to it dynamically (compiled vs run_lab vs CPython on every case) and "
                "statically (the error label of every block marker in the generated C equals the model's up to an "
-               "order-preserving, kind-preserving renaming). partial: except* is differential only (compiled vs CPython, "
+               "order-preserving, kind-preserving renaming). Temp level (M_ExcVars): annot mirrors the assignments of "
+               "code.funcstate.exc_vars (ExceptClauseNode: the GetException temps when the body may need the exception; "
+               "TryFinallyStatNode: its own temps for the exception copy of the finally clause only) and resolves every "
+               "bare raise / with-handler at generation time; exec_a runs over a store of temps; proved for ALL "
+               "statements, exc_vars values and states: simulates the scheme (cur = content of the temps exc_vars names, "
+               "a statement writes only its own constructs' temps), whole functions run_tmp = run_sch hence = CPython "
+               "(propagating exception, chain fields, every probe); a bare raise as finally clause re-raises the "
+               "propagating exception under any enclosing handler; refuted for the variant that keeps an enclosing "
+               "handler's exc_vars in the exception copy. Tied dynamically (compiled vs run_tmp vs CPython) and "
+               "statically: for every __Pyx_ErrRestoreWithState / __Pyx_ReraiseException of the generated C, the "
+               "construct whose __Pyx_GetException filled the temps it reads (handler line / finally clause / dynamic) "
+               "and the exception copies it lies in must be a resolution of M_ExcVars.resolve for that source line. "
+               "partial: except* is differential only (compiled vs CPython, "
                "no model); label_used / is_terminator driven omission of dead copies and of the Save/Reset pair is not "
                "modelled (exercised by the generators: bodies without error exit); tracebacks and yield inside try are "
                "excluded.")
-TRUSTED = ["label model simplifications: break/continue labels always allocated, every finally copy generated, "
+TRUSTED = ["temp model: one variable per allocating construct (Cython reuses released temps for sibling constructs; "
+           "temps are always written at clause entry before they are read); the return/break/continue copies of a "
+           "finally clause are resolved like the normal copy; the static tie is one-directional (every reader in the C "
+           "is a resolution of the model; dead copies are absent from the C)",
+           "label model simplifications: break/continue labels always allocated, every finally copy generated, "
            "can_raise=False specialisation (no Save/Reset when the try body has no error exit) not modelled",
            "plan specialisation: a call _h(k) that raises class c == an inline 'raise _new(c)' at that position",
            "reference semantics exec_ref written from CPython 3.12 ceval.c/errors.c (validated against the "
@@ -73,6 +95,7 @@ class E9(Exception): pass
 CLS = {0: Exception, 3: E3, 4: E4, 5: E5, 9: E9}
 def reset():
     del LOG[:]
+    del HITS[:]
     CNT[0] = 0
     TICKS[0] = 0
 def _new(c):
@@ -91,16 +114,18 @@ def _b(n):
     _tick()
     LOG.append("B%d" % n)
 PLAN = {}
+HITS = []
 def _h(k):
-    # raise point / exit point: PLAN[k] = exception class number, or 'b' / 'c' / 'r' (the caller
-    # then executes break / continue / return)
+    # raise point / exit point: PLAN[k] = exception class number, or 'b' / 'c' / 'r' / 'R' (the caller
+    # then executes break / continue / return / a bare raise)
     _tick()
     c = PLAN.get(k)
     if c is None:
         return 0
+    HITS.append(k)
     if isinstance(c, int):
         raise _new(c)
-    return {"b": 1, "c": 2, "r": 3}[c]
+    return {"b": 1, "c": 2, "r": 3, "R": 4}[c]
 def _t():
     return True
 def _p():
@@ -171,7 +196,7 @@ def run_case(f, ctx, plan=()):
 '''
 
 RUNNER = r'''
-import sys, importlib
+import sys, importlib, json
 import c22h
 _PYNS = {}
 def load_py(modname):
@@ -188,12 +213,30 @@ def run(modname, fname, ctx, which):
     else:
         f = load_py(modname)[fname]
     return c22h.run_case(f, ctx)
-def run_plans(modname, fname, which, ctxs, plans):
+_EFF = {}
+def effective(modname, fname, cands):
+    """indices of the candidate plans in which every planned point fires (CPython run, nothing handled)"""
+    key = (modname, fname)
+    if key not in _EFF:
+        f = load_py(modname)[fname]
+        keep = []
+        for i, pl in enumerate(cands):
+            c22h.run_case(f, 0, [tuple(x) for x in pl])
+            if len(set(c22h.HITS)) == len(pl):
+                keep.append(i)
+        _EFF[key] = keep
+    return _EFF[key]
+def run_plans(modname, fname, which, ctxs, plans, cands=None):
     if which == "cy":
         f = getattr(importlib.import_module(modname), fname)
     else:
         f = load_py(modname)[fname]
-    return [c22h.run_case(f, c, [tuple(x) for x in pl]) for pl in plans for c in ctxs]
+    out = []
+    if cands is not None:
+        eff = effective(modname, fname, cands)
+        out.append(list(eff))
+        plans = list(plans) + [cands[i] for i in eff]
+    return out + [c22h.run_case(f, c, [tuple(x) for x in pl]) for pl in plans for c in ctxs]
 def run_star(modname, fname, which):
     if which == "cy":
         f = getattr(importlib.import_module(modname), fname)
@@ -240,8 +283,8 @@ def toks_stmt(s):
         return [t]
     if t == "log":
         return ["log", str(s[1])]
-    if t in ("hit", "hitx"):  # static view of a raise point: a call with an error exit
-        return ["log", str(1000 + s[1])]
+    if t in ("hit", "hitx"):  # static view of a raise point: a call with an error exit, then a bare raise
+        return ["seq", "log", str(1000 + s[1]), "reraise"]
     if t == "raise":
         return ["raise"] + [str(x) for x in s[1]] + [str(x) for x in s[2]]
     if t == "try":
@@ -266,20 +309,25 @@ CLSNAME = {0: "Exception", 3: "E3", 4: "E4", 5: "E5"}
 def src_block(b, ind, out):
     if not b:
         out.append(ind + "pass")
-    for s in b:
-        src_stmt(s, ind, out)
+    return [src_stmt(s, ind, out) for s in b]
 
 
 def src_stmt(s, ind, out):
+    """appends the source lines of s to out; returns the layout node of s: kind, line (1 = the def
+    line) and the nodes of the sub-blocks -- what the static exc_vars tie needs"""
     t = s[0]
+    node = {"t": t, "line": len(out) + 1}
     if t == "skip":
         out.append(ind + "pass")
     elif t == "log":
         out.append(ind + "_b(%d)" % s[1])
     elif t == "probe":
         out.append(ind + "_p()")
-    elif t == "hit":
-        out.append(ind + "_h(%d)" % s[1])
+    elif t == "hit":          # the point can raise a new exception (inside _h) or do a bare raise
+        out.append(ind + "_a = _h(%d)" % s[1])
+        out.append(ind + "if _a == 4:")
+        node["rline"] = len(out) + 1
+        out.append(ind + "    raise")
     elif t == "hitx":         # inside a loop: the point can also break / continue / return
         out.append(ind + "_a = _h(%d)" % s[1])
         out.append(ind + "if _a == 1:")
@@ -288,6 +336,9 @@ def src_stmt(s, ind, out):
         out.append(ind + "    continue")
         out.append(ind + "elif _a == 3:")
         out.append(ind + "    return 7")
+        out.append(ind + "elif _a == 4:")
+        node["rline"] = len(out) + 1
+        out.append(ind + "    raise")
     elif t == "raise":
         w = "_new(%d)" % s[1][1] if s[1][0] == "new" else "x%d" % s[1][1]
         c = s[2]
@@ -296,6 +347,7 @@ def src_stmt(s, ind, out):
             cz = " from _new(%d)" % c[1] if c[0] == "fromnew" else " from x%d" % c[1]
         out.append(ind + "raise " + w + cz)
     elif t == "reraise":
+        node["rline"] = len(out) + 1
         out.append(ind + "raise")
     elif t == "ret":
         out.append(ind + "return 7")
@@ -305,35 +357,125 @@ def src_stmt(s, ind, out):
         out.append(ind + "continue")
     elif t == "try":
         out.append(ind + "try:")
-        src_block(s[1], ind + "    ", out)
+        node["body"] = src_block(s[1], ind + "    ", out)
+        node["hs"] = []
         for pat, name, body in s[2]:
             h = "except" + ("" if pat is None else " " + CLSNAME[pat]) + ("" if name is None else " as x%d" % name) + ":"
+            hl = len(out) + 1
             out.append(ind + h)
-            src_block(body, ind + "    ", out)
+            node["hs"].append({"line": hl, "name": name, "src": body, "body": src_block(body, ind + "    ", out)})
+        node["else"] = []
         if s[3] is not None:
             out.append(ind + "else:")
-            src_block(s[3], ind + "    ", out)
+            node["else"] = src_block(s[3], ind + "    ", out)
     elif t == "fin":
         out.append(ind + "try:")
-        src_block(s[1], ind + "    ", out)
+        node["body"] = src_block(s[1], ind + "    ", out)
         out.append(ind + "finally:")
-        src_block(s[2], ind + "    ", out)
+        node["finline"] = len(out) + 1          # first statement of the clause
+        node["fin"] = src_block(s[2], ind + "    ", out)
+        node["finend"] = len(out)
     elif t == "with":
         xk = s[2]
         mode = {"xpass": "0", "xswallow": "1"}.get(xk[0]) or ("2, %d" % xk[1])
         out.append(ind + "with _cm(%d, %s):" % (s[1], mode))
-        src_block(s[3], ind + "    ", out)
+        node["body"] = src_block(s[3], ind + "    ", out)
     elif t == "loop":
         out.append(ind + "for _i in range(%d):" % s[1])
-        src_block(s[2], ind + "    ", out)
+        node["body"] = src_block(s[2], ind + "    ", out)
     else:
         raise ValueError(s)
+    return node
 
 
 def func_source(name, prog):
     out = ["def %s():" % name]
     src_block(prog, "    ", out)
     return "\n".join(out) + "\n"
+
+
+def func_layout(prog):
+    return src_block(prog, "    ", ["def"])
+
+
+def fin_ranges(layout):
+    out = []
+
+    def block(nodes):
+        for nd in nodes:
+            for k in ("body", "else", "fin"):
+                if k in nd:
+                    block(nd[k])
+            for h in nd.get("hs", ()):
+                block(h["body"])
+            if nd["t"] == "fin":
+                out.append((nd["finline"], nd["finend"]))
+    block(layout)
+    return out
+
+
+def fin_of_line(ranges, ln):
+    """first line of the innermost finally clause whose lines contain ln (None: none does)"""
+    c = [a for a, b in ranges if a <= ln <= b]
+    return max(c) if c else None
+
+
+def trivial_block(b):
+    """HasNoExceptionHandlingVisitor (M_Exc.trivial): pass / return only"""
+    return all(s[0] in ("skip", "ret") for s in b)
+
+
+def expected_readers(layout):
+    """the readers of exception temps of a function in the emission order of M_ExcVars.readers, each as
+    (kind, source line, stack of enclosing exception copies of finally clauses), and the table
+    construct number -> (kind of provider, its line), numbered as M_ExcVars.annot numbers them:
+    try: body, else, handlers (handler n, an as-name handler's implicit try/finally n+1);
+    try/finally: the statement n, body from n+1, then the clause (both copies the same numbers);
+    with: the try/finally of WithTransform n, body from n+1, then its except clause"""
+    prov = {}
+    readers = []
+    cnt = [0]
+
+    def block(nodes, stack):
+        for nd in nodes:
+            stmt(nd, stack)
+
+    def stmt(nd, stack):
+        t = nd["t"]
+        if t in ("reraise", "hit", "hitx"):
+            readers.append(("b", nd["rline"], stack))
+        elif t == "try":
+            block(nd["body"], stack)
+            block(nd["else"], stack)
+            for h in nd["hs"]:
+                n = cnt[0]
+                cnt[0] += 1
+                prov[n] = ("h", h["line"])
+                if h["name"] is not None:
+                    cnt[0] += 1            # try: body finally: del name
+                block(h["body"], stack)
+        elif t == "fin":
+            n = cnt[0]
+            cnt[0] += 1
+            prov[n] = ("f", nd["finline"])
+            block(nd["body"], stack)
+            c0 = cnt[0]
+            block(nd["fin"], stack)
+            c1 = cnt[0]
+            cnt[0] = c0
+            block(nd["fin"], stack + (nd["finline"],))
+            assert cnt[0] == c1
+        elif t == "with":
+            cnt[0] += 1
+            block(nd["body"], stack)
+            n = cnt[0]
+            cnt[0] += 1
+            prov[n] = ("h", nd["line"])
+            readers.append(("w", nd["line"], stack))
+        elif t == "loop":
+            block(nd["body"], stack)
+    block(layout, ())
+    return readers, prov
 
 
 def names_ok(b, scope=frozenset()):
@@ -675,7 +817,7 @@ def loop_templates():
 def plans_for(points, rng, npairs, ntriples=0, exits=False):
     """the empty plan, every single raise point x class, pairs (all of them when npairs is None)"""
     ids = [k for k, _ in points]
-    vals = (3, 4, 5, "b", "c", "r") if exits else (3, 4, 5)
+    vals = (3, 4, 5, "R", "b", "c", "r") if exits else (3, 4, 5, "R")
     out = [()]
     for k in ids:
         for c in vals:
@@ -691,6 +833,25 @@ def plans_for(points, rng, npairs, ntriples=0, exits=False):
     return out
 
 
+def chain_candidates(points, classes, two_r=False):
+    """plans for the exception STATE at a bare raise: one point does a bare raise, up to two other points
+    raise a class of `classes` (which handler runs, what propagates through which finally); the runner
+    keeps those in which every planned point fires, i.e. all <= 3-step paths that end in, or pass
+    through, a bare raise.  two_r: also a second bare-raise point."""
+    ids = [k for k, _ in points]
+    out = []
+    for r in ids:
+        others = [k for k in ids if k != r]
+        for i, a in enumerate(others):
+            for ca in classes:
+                for b in others[i + 1:]:
+                    for cb in classes:
+                        out.append(tuple(sorted(((r, "R"), (a, ca), (b, cb)))))
+                    if two_r and r < b:
+                        out.append(tuple(sorted(((r, "R"), (a, ca), (b, "R")))))
+    return out
+
+
 def specialise(b, plan):
     """the program the function behaves as under a plan: a raising point is an inline raise, the others vanish"""
     d = dict(plan)
@@ -702,7 +863,7 @@ def specialise(b, plan):
             if isinstance(v, int):
                 out.append(("raise", ("new", v), ("nocause",)))
             elif v is not None:
-                out.append(({"b": "brk", "c": "cont", "r": "ret"}[v],))
+                out.append(({"b": "brk", "c": "cont", "r": "ret", "R": "reraise"}[v],))
         elif t == "try":
             out.append(("try", specialise(s[1], plan), [(pt, nm, specialise(hb, plan)) for pt, nm, hb in s[2]],
                         None if s[3] is None else specialise(s[3], plan)))
@@ -741,6 +902,12 @@ def fixed_programs():
         ("fixed/return_in_finally_swallows",
          [("loop", 2, [("fin", [("log", 1), R], [("probe",), ("cont",)])]), ("probe",),
           ("fin", [R], [("probe",), ("ret",)])]),
+        ("fixed/reraise_in_finally_in_handler",
+         [("try", [R], [(None, None, [("fin", [("raise", ("new", 4), ("nocause",))], [("probe",), ("reraise",)])])], None)]),
+        ("fixed/reraise_in_with_in_finally_in_handler",
+         [("try", [("try", [R], [(3, 1, [("fin", [("raise", ("new", 4), ("fromvar", 1))],
+                                           [("with", 1, ("xpass",), [("probe",), ("reraise",)])])])], None)],
+           [(0, None, [("probe",)])], None)]),
         ("fixed/context_cycle",
          [("try", [R], [(3, 1, [("try", [("raise", ("new", 4), ("nocause",))],
                                  [(4, 2, [("try", [("raise", ("var", 1), ("nocause",))], [(3, None, [("probe",)])], None),
@@ -821,6 +988,129 @@ def s6():
     return 7
 '''
 NSTAR = 7
+
+
+# anchored regions outside the model's language, differential only (compiled vs CPython):
+#   x0/x7 tuple patterns (__Pyx_PyErr_ExceptionMatches2), x1/x2 non-literal pattern expressions
+#   (ExceptClauseNode has_non_literals: __Pyx_ErrFetch / __Pyx_ErrRestore around their evaluation),
+#   x3 raising classes (instantiation in __Pyx_Raise, cause given as a class), x4 return values through
+#   finally clauses (ret temp, return/continue in finally), x5 bare raise in a function without handler
+#   called from a finally clause (__Pyx_ReraiseException), x6 raising a non-exception
+EXTRA = r'''
+from c22h import _b, _p, _new, D, E3, E4, E5, CLS
+def x0():
+    try:
+        try:
+            raise _new(4)
+        except (E3, E4):
+            _b(1); _p()
+            raise
+    except E4:
+        _b(2); _p()
+    _p()
+    return 7
+def x1():
+    def pat(c):
+        _b(10); _p()
+        return CLS[c]
+    try:
+        try:
+            raise _new(5)
+        except pat(3):
+            _b(1)
+        except pat(5) as e:
+            _b(2); _p()
+            raise _new(3) from e
+    except E3:
+        _b(3); _p()
+    return 7
+def x2():
+    def bad():
+        _p()
+        raise _new(4)
+    try:
+        try:
+            raise _new(3)
+        except bad():
+            _b(1)
+    except E4:
+        _b(2); _p()
+    _p()
+    return 7
+def x3():
+    try:
+        try:
+            raise E3
+        except E3:
+            _p()
+            raise E4 from E5
+    except E4:
+        _b(1); _p()
+    return 7
+def x4():
+    def a():
+        try:
+            return 1
+        finally:
+            _b(1); _p()
+    def b():
+        try:
+            raise _new(3)
+        finally:
+            _p()
+            return 2
+    def c():
+        for i in range(3):
+            try:
+                return 10 + i
+            finally:
+                if i < 2:
+                    continue
+    r = (a(), b(), c())
+    _p()
+    return r
+def _inner():
+    _p()
+    raise
+def x5():
+    try:
+        try:
+            raise _new(3)
+        except E3:
+            try:
+                raise _new(4)
+            finally:
+                _inner()
+    except E4:
+        _b(1); _p()
+    return 7
+def x6():
+    try:
+        try:
+            raise _new(3)
+        except E3:
+            raise 5
+    except TypeError:
+        _b(1); _p()
+    return 7
+def x7():
+    try:
+        try:
+            raise _new(3)
+        except E3 as x:
+            try:
+                raise _new(4)
+            except (E5, E4) as y:
+                _p()
+                raise y from x
+    except E4:
+        _b(1); _p()
+    _p()
+    return 7
+'''
+EXTRA_CLASS = {"x1": "nonliteral_except_pattern_evaluated_without_current_exception",
+               "x2": "raising_except_pattern_loses_context"}
+NEXTRA = 8
 
 
 def parse_model(line):
@@ -968,6 +1258,82 @@ def match_labels(real, model):
     return None
 
 
+# ---------------- static tie: which temps every bare raise of the generated C reads ----------------
+C_TOK = re.compile(
+    r"(?P<exc>/\*exception exit:\*/\{)|(?P<open>\{)|(?P<close>\})"
+    r"|/\* \"[^\"]*\":(?P<pos>\d+)\n"
+    r"|__Pyx_GetException\(&(?P<g1>\w+), &(?P<g2>\w+), &(?P<g3>\w+)\)(?: < 0\) __PYX_ERR\(\d+, (?P<gl>\d+),)?"
+    r"|__Pyx_ErrRestoreWithState\((?P<r1>\w+), (?P<r2>\w+), (?P<r3>\w+)\);"
+    r"|(?P<dyn>__Pyx_ReraiseException\(\);)"
+    r"|__PYX_ERR\(\d+, (?P<el>\d+),")
+
+
+def c_readers(workdir, modname):
+    """{function: (def line, set of (source line of the raise / with, provider, stack of enclosing
+    exception copies))}; provider = ('h', line of the except clause / with statement) | ('f', line of the
+    exception copy of a finally clause) | '-' (__Pyx_ReraiseException); a provider is the nearest
+    preceding __Pyx_GetException that fills the temps the reader passes to __Pyx_ErrRestoreWithState;
+    an exception copy is named by the smallest source line generated inside its block (fin_of_line maps
+    it to the finally clause: the innermost clause whose line range contains it -- the body of a
+    try/finally nested in the clause precedes that statement's own clause)"""
+    with open(os.path.join(workdir, modname + ".pyx")) as f:
+        lines = f.read().split("\n")
+    deflines = {}
+    for ln, text in enumerate(lines, 1):
+        m = re.match(r"^def (f\d+)\(\):", text)
+        if m:
+            deflines[m.group(1)] = ln
+    with open(os.path.join(workdir, modname + ".c")) as f:
+        ctext = f.read()
+    out = {}
+    for m in C_FUNC.finditer(ctext):
+        end = ctext.index("\n}\n", m.end())
+        depth = 0
+        exc = []              # [depth of the block, [smallest source line generated inside]]
+        filled = {}           # frozenset of temps -> provider
+        pending = None        # reader waiting for its __PYX_ERR line
+        raw = []
+
+        def seen(ln):
+            for e in exc:
+                if e[1][0] is None or ln < e[1][0]:
+                    e[1][0] = ln
+        for t in C_TOK.finditer(ctext, m.end(), end):
+            if t.group("exc"):
+                depth += 1
+                exc.append([depth, [None]])
+            elif t.group("open"):
+                depth += 1
+            elif t.group("close"):
+                if exc and exc[-1][0] == depth:
+                    exc.pop()
+                depth -= 1
+            elif t.group("pos"):
+                seen(int(t.group("pos")))
+            elif t.group("g1"):
+                key = frozenset((t.group("g1"), t.group("g2"), t.group("g3")))
+                if t.group("gl"):
+                    seen(int(t.group("gl")))
+                    filled[key] = ("h", [int(t.group("gl"))])
+                else:
+                    filled[key] = ("f", exc[-1][1] if exc else [None])
+            elif t.group("r1"):
+                key = frozenset((t.group("r1"), t.group("r2"), t.group("r3")))
+                pending = (filled.get(key, ("?", [None])), tuple(e[1] for e in exc))
+            elif t.group("dyn"):
+                pending = (("-", [None]), tuple(e[1] for e in exc))
+            elif t.group("el"):
+                seen(int(t.group("el")))
+                if pending is not None:
+                    raw.append((int(t.group("el")),) + pending)
+                    pending = None
+        res = set()
+        for ln, (pk, pl), st in raw:
+            res.add((ln, pk if pk == "-" else (pk, pl[0]), tuple(x[0] for x in st)))
+        out[m.group(1)] = (deflines.get(m.group(1)), res)
+    return out
+
+
 def parse_sites(line):
     d = {}
     for tok in line.split():
@@ -1029,25 +1395,23 @@ def run(ctx):
             ctx.rng.sample([t for t in ltmpl if "/" in t[0][10:]], 2)
         single = [t for t in tmpl if "/" not in t[0][5:]]
         nested = [t for t in tmpl if "/" in t[0][5:]]
-        # one nested template per (kind of outer position, inner shape) class, round robin
+        # one nested template per (kind of outer position, family of the inner shape): every clause kind
+        # (body, handler, else, finally) encloses a try/except, a finally-bearing statement and a with-block
+        def family(inn):
+            return "w" if inn.startswith("w") else ("f" if (inn == "fin" or "_f" in inn) else "t")
         by = {}
         for t in nested:
             o, inn = t[0][5:].split("/")
             posk = o.split(".")[1]
             posk = "h" if posk.startswith("h") else posk
-            by.setdefault(posk, []).append(t)
-        pick = []
-        for posk in sorted(by):
-            lst = by[posk]
-            ctx.rng.shuffle(lst)
-            seen = set()
-            for t in lst:
-                inn = t[0].split("/")[-1]
-                if inn not in seen and len(seen) < 3:
-                    seen.add(inn)
-                    pick.append(t)
+            by.setdefault((posk, family(inn)), []).append(t)
+        pick = [ctx.rng.choice(by[k]) for k in sorted(by)]
         tmpl = single + pick
     tmpl = tmpl + ltmpl
+    if os.environ.get("C22_DEV"):          # development aid: a small run
+        want = os.environ["C22_DEV"].split(",")
+        progs = [x for x in progs if x[0].startswith("fixed/") and "nofixed" not in want]
+        tmpl = [t for t in list(templates()) + list(loop_templates()) if any(w in t[0] for w in want)][:8]
     # templates and programs share modules: the fixed cost of a module (Cython start-up, 380 kB of
     # boilerplate C) dominates the build
     everything = []
@@ -1061,6 +1425,7 @@ def run(ctx):
             everything.append(b.pop(0))
     specs_all, index_all = build_modules(ctx, everything, 9 if quick else 20)
     specs_all.append(dict(name="c22star", source="# cython: language_level=3\n" + STAR, workdir=ctx.workdir, cflags=["-O0"]))
+    specs_all.append(dict(name="c22extra", source="# cython: language_level=3\n" + EXTRA, workdir=ctx.workdir, cflags=["-O0"]))
     usable = build_all(ctx, specs_all, index_all)
     index = [e for e in usable if not e[2].startswith("tmpl/")]
     tindex = [e for e in usable if e[2].startswith("tmpl/")]
@@ -1097,6 +1462,55 @@ def run(ctx):
                            "the label selection of M_ExcLab.gen")
     ctx.count("static/error-label-of-block-marker", nstatic)
     lap("static (%d functions with a label mismatch)" % nbad)
+    # ---------------- static tie: the temps every bare raise reads (funcstate.exc_vars) ----------------
+    creaders = {}
+    eres = model.batch(["evres 0 " + " ".join(toks_block(ent[3])) for ent in index + tindex])
+    nread = nrbad = 0
+    for ent, line in zip(index + tindex, eres):
+        mod, fn, tag, p = ent[:4]
+        if mod not in creaders:
+            try:
+                creaders[mod] = c_readers(ctx.workdir, mod)
+            except Exception as e:          # noqa
+                creaders[mod] = {}
+                ctx.corr_break("exc:c-parse", mod, repr(e)[:300], "generated C parses (readers)")
+        got = creaders[mod].get(fn)
+        if got is None or got[0] is None:
+            continue
+        defline, real = got
+        exp, prov = expected_readers(func_layout(p))
+        toks = line.split()
+        if line.startswith("!") or len(toks) != len(exp) or any(t[0] != e[0] for t, e in zip(toks, exp)):
+            ctx.corr_break("exc:harness", {"tag": tag}, line[:200], "readers %s" % (exp[:6],))
+            continue
+        allowed = set()
+        for (kind, rl, stack), tok in zip(exp, toks):
+            pid = tok.split(":")[1]
+            pr = "-" if pid == "-" else (prov[int(pid)][0], prov[int(pid)][1] + defline - 1)
+            allowed.add((rl + defline - 1, pr, tuple(x + defline - 1 for x in stack)))
+        nread += len(real)
+        ranges = fin_ranges(func_layout(p))
+
+        def fin_abs(ln):
+            if ln is None:
+                return None
+            r = fin_of_line(ranges, ln - defline + 1)
+            return None if r is None else r + defline - 1
+        real = {(a, b if b == "-" or b[0] != "f" else ("f", fin_abs(b[1])), tuple(fin_abs(x) for x in c))
+                for a, b, c in real}
+        bad = sorted((x for x in real if x not in allowed), key=repr)
+        if bad:
+            nrbad += 1
+
+            def rel(x):
+                return None if x is None else x - defline + 1
+            lines_ = {a for a, _, _ in bad}
+            show = lambda S: [(rel(a), b if b == "-" else (b[0], rel(b[1])), tuple(rel(x) for x in c)) for a, b, c in S]
+            ctx.corr_break("exc:exc-vars-of-bare-raise", {"tag": tag, "source": func_source(fn, p)},
+                           "(raise line, temps of, inside exception copies of) %s" % (show(bad)[:6],),
+                           "M_ExcVars.resolve: %s" % (show(sorted((x for x in allowed if x[0] in lines_), key=repr))[:8],))
+    ctx.count("static/temps-read-by-bare-raise", nread)
+    lap("static exc_vars (%d functions with a mismatch)" % nrbad)
     # ---------------- run: compiled and CPython, three calling contexts ----------------
     cases, meta = [], []
     for (mod, fn, tag, p) in index:
@@ -1104,28 +1518,41 @@ def run(ctx):
             for which in ("cy", "py"):
                 cases.append(["c22run.run", [mod, fn, c, which]])
             meta.append((mod, fn, tag, p, c, ()))
-    tplans = []
+    tplans, tcands = [], []
     for (mod, fn, tag, p, points) in tindex:
         ex = tag.startswith("tmpl/loop/")
+        nested = "/" in tag[len("tmpl/loop/") if ex else len("tmpl/"):]
         if quick:
             pl = plans_for(points, ctx.rng, 60 if ex else 36, exits=ex)
+            cands = chain_candidates(points, (3, 5))
         else:
             pl = plans_for(points, ctx.rng, 300 if ex else 160, ntriples=20, exits=ex)
+            cands = chain_candidates(points, (3, 5) if nested else (3, 4, 5), two_r=True)
         tplans.append(pl)
+        tcands.append(cands)
         for which in ("cy", "py"):
-            cases.append(["c22run.run_plans", [mod, fn, which, [0, 1, 2], [[list(x) for x in q] for q in pl]]])
+            cases.append(["c22run.run_plans", [mod, fn, which, [0, 1, 2], [[list(x) for x in q] for q in pl],
+                                               [[list(x) for x in q] for q in cands]]])
     res = cybuild.call_cases(ctx.workdir, cases, setup="import c22run", alarm=60, timeout=600)
     lap("run")
     runs = []                      # (cy, py) per meta entry
     for i in range(len(meta)):
         runs.append((parse_run(res[2 * i]), parse_run(res[2 * i + 1])))
     base = 2 * len(meta)
+    nchain = 0
     for ti, (mod, fn, tag, p, points) in enumerate(tindex):
-        pl = tplans[ti]
         rc, rp = res[base + 2 * ti], res[base + 2 * ti + 1]
         if "e" in rp:
             ctx.corr_break("exc:harness", {"tag": tag}, str(rp)[:300], "CPython runs the template")
+            tplans[ti] = []
             continue
+        # the chain plans in which every planned point fires (decided by the CPython run)
+        eff = [int(x["r"]) for x in rp["r"][0]["r"]]
+        nchain += len(eff)
+        pl = tplans[ti] = tplans[ti] + [tcands[ti][i] for i in eff]
+        rp = {"r": rp["r"][1:]}
+        if "e" not in rc:
+            rc = {"r": rc["r"][1:]}
         if "e" in rc:
             # the compiled function killed the worker (or raised out of the harness) under some plan:
             # run the plans one by one to find it
@@ -1151,6 +1578,7 @@ def run(ctx):
         mq.append("ref %d %s" % (c, tk))
         mq.append("sch %d %d %d %s" % (fx_r, fx_s, c, tk))
         mq.append("lab 0 %d %d %d %s" % (fx_r, fx_s, c, tk))
+        mq.append("tmp 0 %d %d %d %s" % (fx_r, fx_s, c, tk))
         mq.append("sch 1 %d %d %s" % (fx_s, c, tk) if not fx_r else "")
     lap("collect")
     mres = model.batch([x for x in mq if x])
@@ -1159,12 +1587,12 @@ def run(ctx):
         mres4 = mres
     else:
         mres4 = []
-        for i in range(0, len(mres), 3):
-            mres4 += [mres[i], mres[i + 1], mres[i + 2], mres[i + 1]]
+        for i in range(0, len(mres), 4):
+            mres4 += [mres[i], mres[i + 1], mres[i + 2], mres[i + 3], mres[i + 1]]
     nviol = 0
     for i, (mod, fn, tag, p, c, q) in enumerate(meta):
         cy, py = runs[i]
-        mref, msch, mlab, mfix = [parse_model(x) for x in mres4[4 * i:4 * i + 4]]
+        mref, msch, mlab, mtmp, mfix = [parse_model(x) for x in mres4[5 * i:5 * i + 5]]
         inp = {"tag": tag, "ctx": c, "tokens": " ".join(toks_block(p))}
         if q or tag.startswith("tmpl/"):
             tp = [e for e in tindex if e[0] == mod and e[1] == fn][0][3]
@@ -1174,8 +1602,8 @@ def run(ctx):
         else:
             inp["source"] = func_source(fn, p)
         ctx.case(stratum_of(tag, p, c), inp, sig=(inp["tokens"], c))
-        if mref is None or msch is None or mlab is None or "crash" in py:
-            ctx.corr_break("exc:harness", inp, str(py)[:300], str(mres4[4 * i:4 * i + 3])[:300])
+        if mref is None or msch is None or mlab is None or mtmp is None or "crash" in py:
+            ctx.corr_break("exc:harness", inp, str(py)[:300], str(mres4[5 * i:5 * i + 4])[:300])
             continue
         # reference model vs CPython itself
         if model_view(mref, c) != py:
@@ -1183,6 +1611,9 @@ def run(ctx):
         # label level vs structural scheme (proved equal: run_lab_eq_run_sch)
         if mlab != msch:
             ctx.corr_break("exc:lab-vs-sch", inp, mlab, msch)
+        # temp level vs structural scheme (proved equal: run_tmp_eq_run_sch)
+        if mtmp != msch:
+            ctx.corr_break("exc:tmp-vs-sch", inp, mtmp, msch)
         klass = classify(msch, mfix, mref, c)
         if msch["out"] == "crash":
             # the scheme reaches the zeroed temps: behaviour of the C code is undefined
@@ -1203,6 +1634,7 @@ def run(ctx):
     del DEFERRED[:]
     ctx.extra["templates"] = len(tindex)
     ctx.extra["template_plan_cases"] = sum(3 * len(x) for x in tplans)
+    ctx.extra["bare_raise_chain_plans"] = nchain
     # --- except*: differential only
     sc = []
     for j in range(NSTAR):
@@ -1215,6 +1647,21 @@ def run(ctx):
         ctx.case("exceptstar/differential", inp, sig=("star", j))
         if a != b and (a.get("r"), a.get("e")) != (b.get("r"), b.get("e")):
             ctx.fail("except_star_differs", inp, a, b)
+    run_extra(ctx)
+
+
+def run_extra(ctx):
+    sc = []
+    for j in range(NEXTRA):
+        for which in ("cy", "py"):
+            sc.append(["c22run.run_star", ["c22extra", "x%d" % j, which]])
+    sres = cybuild.call_cases(ctx.workdir, sc, setup="import c22run", alarm=10)
+    for j in range(NEXTRA):
+        a, b = sres[2 * j], sres[2 * j + 1]
+        inp = {"extra": "x%d" % j}
+        ctx.case("extra/differential", inp, sig=("extra", j))
+        if a != b and (a.get("r"), a.get("e")) != (b.get("r"), b.get("e")):
+            ctx.fail(EXTRA_CLASS.get("x%d" % j, "extra_program_differs"), inp, a, b)
 
 
 def classify(msch, mfix, mref, c):
@@ -1231,7 +1678,11 @@ def replay(ctx, obj):
         f.write(HELPER)
     with open(os.path.join(ctx.workdir, "c22run.py"), "w") as f:
         f.write(RUNNER)
-    if "star" in inp:
+    if "extra" in inp:
+        cybuild.build("c22extra", "# cython: language_level=3\n" + EXTRA, ctx.workdir)
+        r = cybuild.call_cases(ctx.workdir, [["c22run.run_star", ["c22extra", inp["extra"], w]] for w in ("cy", "py")],
+                               setup="import c22run")
+    elif "star" in inp:
         cybuild.build("c22star", "# cython: language_level=3\n" + STAR, ctx.workdir)
         r = cybuild.call_cases(ctx.workdir, [["c22run.run_star", ["c22star", inp["star"], w]] for w in ("cy", "py")],
                                setup="import c22run")
